@@ -9,7 +9,9 @@ import (
 
 const zzGlobalID = "chA:s1-global-1"
 
-func zzChildIDs() []string { return []string{"chA:s1-chB:s2-1", "chA:s1-chC:s3-1", "chA:s1-chB:s2-2"} }
+func zzChildIDs() []string {
+	return []string{"chA:s1-chB:s2-1", "chA:s1-chC:s3-1", "chA:s1-chB:s2-2", "chA:s1-chD:s4-1"}
+}
 
 func zzTxInfo(w *zzWorld, gid string) (TransactionInfo, bool) {
 	var ti TransactionInfo
@@ -82,6 +84,8 @@ func zzMultiPre(w *zzWorld, n int, h uint64) (TransactionInfo, []pb.TransactionS
 }
 
 // ZZH_C05_begin_multi_step: a further child begins (possibly failed at begin).
+// (also C06: a group that failed at begin leaves the timeout list of the height it was registered for)
+// zz:also C06
 func ZZH_C05_begin_multi_step() {
 	w := zzNewWorld()
 	w.height = 10
@@ -128,7 +132,7 @@ func ZZH_C05_begin_multi_step() {
 func ZZH_C05_report_multi_step() {
 	w := zzNewWorld()
 	w.height = 10
-	n := 1 + zz.Choice("children", 3) // 1..3 children
+	n := 1 + zz.Choice("children", zz.Tier(3, 4)) // 1..3 children (thorough 4)
 	h := zz.U64("expiry")
 	pre, sts := zzMultiPre(w, n, h)
 	w.put(zzTMAddr, TimeoutKey(h), []byte(zzGlobalID))
